@@ -8,7 +8,7 @@
 use crate::env::{PosReader, RecSink};
 use crate::refspec as r;
 use crate::refspec::Record;
-use crate::report::{Report, Tier};
+use crate::report::Report;
 use crate::streams::*;
 use crate::util::*;
 use serde::{Deserialize, Serialize};
